@@ -1,4 +1,4 @@
-import Rtsp.Proofs.Ledger.Answer
+import Rtsp.Proofs.Ledger.ErrorClose
 /-
 # C11 — the server survives hostile control connections and cleans up after them
 
@@ -27,9 +27,75 @@ theorem code_shape :
     badRequestSitesConn = badRequestAllConn ∧ badRequestSitesSession = badRequestAllSession := by
   decide
 
-/-- **Every request is answered, and the response comes first** (before any close). -/
+/-! ## every input is answered or the connection is closed -/
+
+/-- **Totality of the per-connection step.**  Whatever the input class and whatever the state, the
+step on connection `c` emits an answer for `c` (RTSP response, HTTP response, WebSocket accept), or
+closes `c`, or consumes the input without answer — which happens only for bytes `Conn.Read` skips
+and for interleaved frames while the reader is in TCP mode — or the input is an event the
+connection cannot see (its read deadline is not armed; a GET channel reads nothing while it waits). -/
+theorem every_input_answered_or_closed (st : State) (c : Conn) (i : Input) :
+    Answered c.id (connInput st c i).2 ∨ Out.connClose c.id ∈ (connInput st c i).2 ∨
+    (Out.consumed c.id ∈ (connInput st c i).2 ∧ Consumable c i) ∨
+    ((connInput st c i).2 = [] ∧ Unseen st c i) :=
+  connInput_total st c i
+
+/-- **A request is always answered** (on every connection that reads RTSP). -/
+theorem request_answered (st : State) (c : Conn) (r : Req) (hp : ∀ k, c.phase ≠ .httpWait k) :
+    ∃ n, Out.rtsp c.id n ∈ (connInput st c (.req r)).2 :=
+  Rtsp.Ledger.request_answered st c r hp
+
+/-- **… and the response comes first** (before any close). -/
 theorem request_answered_first (st : State) (c : Conn) (r : Req) :
-    ∃ status rest, (rtspInput st c (.req r)).2 = Out.rtsp c.id status :: rest :=
+    ∃ rest, (rtspInput st c (.req r)).2 = Out.rtsp c.id (handleRequest st c r).2.1 :: rest :=
   rtspInput_req_head st c r
+
+/-- **While its read deadline is armed, a silent connection is closed** (`idle` = the deadline
+expires).  The deadline is armed in every phase except `readFuncStandard` while the session
+records — see `deadlineArmed`. -/
+theorem silence_closes (st : State) (c : Conn) (h : deadlineArmed st c = true) :
+    Out.connClose c.id ∈ (connInput st c .idle).2 :=
+  idle_closes st c h
+
+/-! ## an error response closes the connection where the code does -/
+
+/-- **Status and error flag agree**: `handleRequestInner` returns an error (which makes the reader
+close the connection) exactly with the statuses 400 and 454; 200 / 404 / 461 / 501 keep the
+connection. -/
+theorem error_iff_400_454 (st : State) (c : Conn) (r : Req) :
+    (handleRequest st c r).2.2.1 = (((handleRequest st c r).2.1 == statusBadRequest) ||
+      ((handleRequest st c r).2.1 == statusSessionNotFound)) :=
+  handleRequest_coherent st c r
+
+/-- **An error response closes the connection, after the response**: the outputs are the response,
+what the request did, then the tear-down; afterwards the connection is in no table. -/
+theorem error_closes_after_response (st : State) (c : Conn) (r : Req)
+    (h : errStatus (handleRequest st c r).2.1 = true) :
+    (rtspInput st c (.req r)).2 =
+      Out.rtsp c.id (handleRequest st c r).2.1 :: (handleRequest st c r).2.2.2 ++ (closeById (handleRequest st c r).1 c.id).2 ∧
+    ∀ x ∈ (rtspInput st c (.req r)).1.conns, x.id ≠ c.id :=
+  error_closes st c r h
+
+/-- a connection that is in the table is told so -/
+theorem error_close_emitted (st : State) (c : Conn) :
+    Out.connClose c.id ∈ (closeConn st c).2 := closeConn_emits st c
+
+/-- … and no other status closes it. -/
+theorem no_error_keeps_open (st : State) (c : Conn) (r : Req)
+    (h : errStatus (handleRequest st c r).2.1 = false) :
+    rtspInput st c (.req r) =
+      ((handleRequest st c r).1, Out.rtsp c.id (handleRequest st c r).2.1 :: (handleRequest st c r).2.2.2) :=
+  no_error_stays st c r h
+
+/-! ### non-vacuity -/
+
+/-- a fresh connection, a bogus PLAY: answered 454 and closed -/
+example : (step ((step (init {}) (.accept 0)).1) (.input 0 (.req { method := .play, sess := .bogus }))).2
+    = [Out.rtsp 0 454, Out.connClose 0] := by decide
+
+/-- OPTIONS is answered 200 and the connection stays -/
+example : (step ((step (init {}) (.accept 0)).1) (.input 0 (.req { method := .options }))).2 = [Out.rtsp 0 200] ∧
+    ((step ((step (init {}) (.accept 0)).1) (.input 0 (.req { method := .options }))).1.conns.map (·.id)) = [0] := by
+  decide
 
 end Rtsp.Ledger.C11
